@@ -33,11 +33,11 @@ static TV mk_node(int rule, std::initializer_list<std::string> ch) {
 
 // table-driven custom lexer: the first byte decides term and length (see case file line LEX)
 static int g_lex_term[256]; static int g_lex_len[256];
-static long g_lex_calls = 0; static std::vector<long> g_lex_positions;
+static std::vector<long> g_lex_remaining;
 struct table_lexer {
   template<typename Iterator, typename ErrorStream>
   ctpg::recognized_term match(ctpg::match_options, ctpg::source_point, Iterator start, Iterator end, ErrorStream&) {
-    ++g_lex_calls;
+    { long rem = 0; for (Iterator i = start; !(i == end); ++i) ++rem; g_lex_remaining.push_back(rem); }
     unsigned char c = static_cast<unsigned char>(*start);
     if (g_lex_term[c] < 0) return ctpg::recognized_term{};
     int len = g_lex_len[c]; Iterator it = start;
@@ -120,9 +120,9 @@ template<class P> static void run_case(P& p, const gcase& c, std::ostream& o) {
   for (auto& in : c.inputs) {
     o << "IN " << k++ << "\n";
     ctpg::parse_options opt; opt.set_verbose(in.verbose != 0).set_skip_whitespace(in.skipws != 0).set_skip_newline(in.skipnl != 0);
-    std::string r1, r2, r3; std::string e1; ctxlog log1, log2;
+    std::string r1, r2, r3; std::string e1, e2; ctxlog log1, log2, log3;
     {
-      checked_buffer buf(in.bytes); std::stringstream err;
+      checked_buffer buf(in.bytes); std::stringstream err; g_lex_remaining.clear();
       try { auto r = p.context_parse(log1, opt, buf, err); r1 = r ? "VALUE " + r->get_value().s : "NONE"; }
       catch (const std::exception& e) { r1 = std::string("THROW ") + e.what(); }
       e1 = err.str();
@@ -130,15 +130,24 @@ template<class P> static void run_case(P& p, const gcase& c, std::ostream& o) {
     }
     o << "RES " << r1 << "\n";
     o << "CTX"; for (int x : log1.calls) o << " " << x; o << "\n";
+    o << "LEXCALLS"; for (long x : g_lex_remaining) o << " " << (long(in.bytes.size()) - x); o << "\n";
     o << "ERR " << e1.size() << "\n" << e1 << "\nENDERR\n";
-    // same parse through string_view_buffer without a stream, verbosity flipped: result must not depend on either (C07/C16)
+    // the same parse with verbosity flipped, through string_view_buffer: result must not depend on either (C07/C16)
     {
-      ctpg::parse_options opt2 = opt; opt2.set_verbose(!in.verbose);
-      ctpg::utils::no_stream ns;
-      try { auto r = p.context_parse(log2, opt2, ctpg::buffers::string_view_buffer(in.bytes), ns); r2 = r ? "VALUE " + r->get_value().s : "NONE"; }
+      ctpg::parse_options opt2 = opt; opt2.set_verbose(!in.verbose); std::stringstream err;
+      try { auto r = p.context_parse(log2, opt2, ctpg::buffers::string_view_buffer(in.bytes), err); r2 = r ? "VALUE " + r->get_value().s : "NONE"; }
       catch (const std::exception& e) { r2 = std::string("THROW ") + e.what(); }
+      e2 = err.str();
     }
     o << "RES2 " << r2 << "\n";
+    o << "ERR2 " << e2.size() << "\n" << e2 << "\nENDERR2\n";
+    // and without any stream, through string_buffer
+    {
+      ctpg::utils::no_stream ns;
+      try { auto r = p.context_parse(log3, opt, ctpg::buffers::string_buffer(std::string(in.bytes)), ns); r3 = r ? "VALUE " + r->get_value().s : "NONE"; }
+      catch (const std::exception& e) { r3 = std::string("THROW ") + e.what(); }
+    }
+    o << "RES3 " << r3 << "\n";
   }
   o << "ENDCASE\n";
 }
